@@ -500,6 +500,12 @@ class T(_np.ndarray):
         if len(d) == 2 and all(isinstance(x, int) for x in d):
             return wrap(_np.swapaxes(_np.asarray(s), d[0], d[1]))
         return wrap(_np.transpose(_np.asarray(s), *d))
+    def new_zeros(s, *shape, **k): return _full(tuple(shape[0]) if len(shape) == 1 and not isinstance(shape[0], int) else tuple(shape), const(0))
+    def new_ones(s, *shape, **k): return _full(tuple(shape[0]) if len(shape) == 1 and not isinstance(shape[0], int) else tuple(shape), const(1))
+    def new_full(s, shape, v, **k): return _full(tuple(shape), _fill_value(v))
+    def t(s): return wrap(_np.asarray(s).T) if s.ndim == 2 else s
+    def movedim(s, a, b): return wrap(_np.moveaxis(_np.asarray(s), a, b))
+    def swapaxes(s, a, b): return wrap(_np.swapaxes(_np.asarray(s), a, b))
     def masked_fill(s, mask, value):
         # x.masked_fill(mask, v) = torch.where(mask, full_like(x, v), x); goes through the recipe's where hook if there is one
         fill = _full(tuple(s.shape), _fill_value(value)) if not isinstance(value, _np.ndarray) else value
@@ -974,7 +980,58 @@ class _TORCH_FUNCS_PROXY:
     def update(s, o):
         for k, v in dict(o).items(): s[k] = v
 _METHOD_FALLBACK_NAMES = {'cos', 'sin', 'tan', 'sqrt', 'log', 'floor', 'arccos', 'arcsin', 'arctan', 'acos', 'asin', 'atan', 'deg2rad', 'rad2deg', 'square', 'exp',
-                          'atan2', 'arctan2', 'pow', 'log2', 'log10', 'ceil', 'sign', 'rsqrt', 'reciprocal', 'neg', 'nan_to_num', 'where', 'maximum', 'minimum', 'matmul', 'norm'}
+                          'atan2', 'arctan2', 'pow', 'log2', 'log10', 'ceil', 'sign', 'rsqrt', 'reciprocal', 'neg', 'nan_to_num', 'where', 'maximum', 'minimum', 'matmul', 'norm',
+                          'mul', 'multiply', 'add', 'sub', 'subtract', 'div', 'divide', 'true_divide', 'mm', 'lt', 'gt', 'le', 'ge', 'eq', 'ne', 'logical_and', 'logical_or', 'logical_not',
+                          'hypot', 'outer', 'prod', 'chunk', 'split', 'roll', 'flip', 'gather', 'unbind', 'cross', 'dot', 'broadcast_to'}
+
+
+def _w(x):
+    """operand of a function-spelled operator: field terms (tracer/opshim) keep their own operators"""
+    return x if getattr(x, '_defers_scalars', False) else wrap(x)
+
+
+def _out(res, k):
+    """numpy's out= argument: the result is written into the given array (which is also what is returned)"""
+    out = k.get('out')
+    if out is None: return res
+    if not isinstance(out, _np.ndarray): raise TraceError('out= is not an array')
+    out[...] = res
+    return out
+
+
+def _obj(x):
+    return _np.asarray(x if isinstance(x, _np.ndarray) else wrap(x), dtype=object)
+
+
+def _structural(d, torch_like):
+    """purely structural functions (no arithmetic): reshaping, stacking, axis moves; entries stay the symbolic values they are.
+    Added so that clean-ups which merely re-spell the plumbing (np.expand_dims for [None], torch.movedim for permute, hstack for
+    concatenate, ...) trace like the code they replace."""
+    ax = 'dim' if torch_like else 'axis'
+    d.setdefault('expand_dims', lambda x, axis: wrap(_np.expand_dims(_obj(x), axis)))
+    d.setdefault('swapaxes', lambda x, a, b: wrap(_np.swapaxes(_obj(x), a, b)))
+    d.setdefault('moveaxis', lambda x, a, b: wrap(_np.moveaxis(_obj(x), a, b)))
+    d.setdefault('movedim', d['moveaxis'])
+    d.setdefault('broadcast_to', lambda x, shape: wrap(_np.broadcast_to(_obj(x), tuple(shape)).copy()))
+    d.setdefault('atleast_1d', lambda x: wrap(_np.atleast_1d(_obj(x))))
+    d.setdefault('atleast_2d', lambda x: wrap(_np.atleast_2d(_obj(x))))
+    d.setdefault('atleast_3d', lambda x: wrap(_np.atleast_3d(_obj(x))))
+    d.setdefault('hstack', lambda xs: wrap(_np.hstack([_obj(x) for x in xs])))
+    d.setdefault('vstack', lambda xs: wrap(_np.vstack([_obj(x) for x in xs])))
+    d.setdefault('column_stack', lambda xs: wrap(_np.column_stack([_obj(x) for x in xs])))
+    d.setdefault('concat', d.get('cat') or d.get('concatenate'))
+    d.setdefault('ravel', lambda x: wrap(_obj(x).reshape(-1)))
+    d.setdefault('full', lambda shape, v, **k: _full(tuple(shape) if not isinstance(shape, int) else (shape,), _fill_value(v)))
+    d.setdefault('full_like', lambda x, v, **k: _full(_np.shape(x), _fill_value(v)))
+    d.setdefault('empty_like', lambda x, **k: _full(_np.shape(x), const(0)))
+    d.setdefault('empty', lambda *shape, **k: _full(tuple(shape[0]) if len(shape) == 1 and not isinstance(shape[0], int) else tuple(shape), const(0)))
+    d.setdefault('outer', lambda a, b: wrap(_np.multiply.outer(_obj(a).reshape(-1), _obj(b).reshape(-1))))
+    d.setdefault('reciprocal', lambda x: 1 / wrap(x))
+    d.setdefault('hypot', lambda a, b: _ew1(lambda e: mk('sqrt', e), wrap(a) * wrap(a) + wrap(b) * wrap(b)))
+    d.setdefault('prod', lambda x, axis=None, dim=None, **k: _ret(_np.prod(_obj(x), axis=axis if axis is not None else dim)))
+    d.setdefault('split', lambda x, n, **k: [wrap(p) for p in (_np.split(_obj(x), n, axis=k.get(ax, 0)) if not torch_like else
+                 _np.split(_obj(x), list(range(n, _obj(x).shape[k.get('dim', 0)], n)), axis=k.get('dim', 0)))])
+    d.setdefault('chunk', lambda x, n, dim=0: [wrap(p) for p in _np.array_split(_obj(x), n, axis=dim)])
 
 
 def make_torch():
@@ -1034,8 +1091,8 @@ def make_torch():
     d['eq'] = lambda a, b: wrap(a) == b
     d['ne'] = d['not_equal'] = lambda a, b: wrap(a) != b
     d['neg'] = d['negative'] = lambda a: -wrap(a)
-    d['true_divide'] = d['divide'] = lambda a, b: wrap(a) / wrap(b)
-    d['multiply'] = lambda a, b: wrap(a) * wrap(b)
+    d['true_divide'] = d['divide'] = lambda a, b, **k: _w(a) / _w(b)
+    d['multiply'] = lambda a, b, **k: _out(_w(a) * _w(b), k)
     def _vector_norm(x, ord=2, dim=None, keepdim=False, **k):
         if ord not in (2, 2.0): raise TraceError('vector_norm with ord = %r is not supported' % (ord,))
         return la.__dict__['norm'](x, dim=dim, keepdim=keepdim)
@@ -1073,6 +1130,7 @@ def make_torch():
     d['flatten'] = _flatten_fn
     nn = _NS('torch.nn'); nn.__dict__['Unflatten'] = _Unflatten
     d['nn'] = nn
+    _structural(d, True)
     return t
 
 
@@ -1117,11 +1175,11 @@ def make_numpy():
     d['einsum'] = lambda spec, *ops, **k: _ret(_np.einsum(spec, *[_np.asarray(o, dtype=object) for o in ops]))   # added for C11/C12
     d['matmul'] = _dot
     d['cross'] = lambda a, b, axis=-1, **k: _cross(wrap(a), wrap(b), dim=axis)
-    d['subtract'] = lambda a, b: wrap(a) - wrap(b)
-    d['add'] = lambda a, b: wrap(a) + wrap(b)
-    d['multiply'] = lambda a, b: wrap(a) * wrap(b)
+    d['subtract'] = lambda a, b, **k: _out(_w(a) - _w(b), k)
+    d['add'] = lambda a, b, **k: _out(_w(a) + _w(b), k)
+    d['multiply'] = lambda a, b, **k: _out(_w(a) * _w(b), k)
     # function spellings of operators (a clean-up may write np.less(a, b) for a < b, np.logical_and(p, q) for p & q, ...)
-    d['divide'] = d['true_divide'] = lambda a, b: wrap(a) / wrap(b)
+    d['divide'] = d['true_divide'] = lambda a, b, **k: _out(_w(a) / _w(b), k)
     d['negative'] = lambda a: -wrap(a)
     d['less'] = lambda a, b: wrap(a) < b
     d['greater'] = lambda a, b: wrap(a) > b
@@ -1156,6 +1214,7 @@ def make_numpy():
     d['power'] = lambda x, p: wrap(x) ** p
     d['linalg'] = _NS('numpy.linalg')
     d['linalg'].__dict__['norm'] = lambda x, axis=None, **k: _ew1(lambda e: mk('sqrt', e), _sum(wrap(x) * wrap(x), axis=axis))
+    _structural(d, False)
     return n
 
 
@@ -1229,6 +1288,24 @@ class _Expose(ast.NodeTransformer):
 
 
 _STDLIB_OK = {'itertools', 'operator', 'functools', 'collections'}
+
+
+def binder(relpath, fname, cls=None):
+    """a function (*args, **kwargs) -> {parameter name: value} following the signature the real `fname` of /repo/<relpath> has
+    today, so that a stub standing in for it records its arguments by NAME whether the caller passes them by position or keyword"""
+    tree = ast.parse(open(os.path.join(REPO, relpath)).read())
+    body = tree.body if cls is None else [n for n in tree.body if isinstance(n, ast.ClassDef) and n.name == cls][0].body
+    fn = [n for n in body if isinstance(n, ast.FunctionDef) and n.name == fname]
+    if not fn: raise TraceError('%s: function %s not found' % (relpath, fname))
+    names = [a.arg for a in fn[0].args.posonlyargs + fn[0].args.args]
+    def bind(*a, **kw):
+        if len(a) > len(names): raise TraceError('%s called with %d positional arguments (it takes %d)' % (fname, len(a), len(names)))
+        d = dict(zip(names, a))
+        dup = set(d) & set(kw)
+        if dup: raise TraceError('%s: argument(s) %s given twice' % (fname, sorted(dup)))
+        d.update(kw)
+        return d
+    return bind
 
 
 def _bind_stdlib_imports(tree, path, ns):
